@@ -535,10 +535,16 @@ func (h h6) Gen(prop, tier string, r *simrt.Rng) (any, simrt.Config) {
 		}
 		s := fmt.Sprintf("%d/%s", n, ds)
 		c.Mode = "gaussian"
-		c.Flags = map[string]string{"peak-rate": s, "peak": "12h", "distribution": "none", "iteration-frequency": "1s"}
+		peakH := simrt.Pick(r, 12, 12, 6, 18)
+		c.Flags = map[string]string{"peak-rate": s, "peak": fmt.Sprintf("%dh", peakH), "distribution": "none", "iteration-frequency": "1s"}
 		c.Driver = "api"
 		c.Concurrency = 4
-		c.StartOffsetNs = int64(r.Intn(3))*int64(24*time.Hour) + int64(12*time.Hour) - int64(2*time.Second)
+		c.StartOffsetNs = int64(r.Intn(3))*int64(24*time.Hour) + int64(peakH)*int64(time.Hour) - int64(2*time.Second)
+		if r.Intn(4) == 0 {
+			// an earlier run of the same process used the same trigger with another peak (and another peak rate)
+			c.Runs = 2
+			c.Flags1 = map[string]string{"peak-rate": "7/s", "peak": fmt.Sprintf("%dh", (peakH+9)%24), "distribution": "none", "iteration-frequency": "1s"}
+		}
 		c.MaxDurationNs = int64(4*time.Second) + 10*ms + odd(r)
 		c.Input = &InputExpect{Kind: "peakrate", Input: s, Spelled: true, SpelledN: n, SpelledIvNs: int64(d)}
 		c.Prog = ScenarioProg{Iter: []IterPlan{{}}}
